@@ -53,6 +53,7 @@ fn to_jobs(prefix: &[(u64, String)], spec: &RunSpec) -> Vec<Job> {
         log: true,
         want_spec: true,
         spec: Some(spec.clone()),
+        want_trace: false,
     });
     jobs
 }
